@@ -87,6 +87,26 @@ func main() {
 			overlay[k] = []byte(v)
 		}
 	}
+	if id := os.Getenv("VARMQLINT_MUTANT"); id != "" && overlay == nil {
+		// debug: analyse the tree with one self-test mutant / benign variant applied (in memory)
+		for _, m := range mutants {
+			if m.ID != id {
+				continue
+			}
+			path := filepath.Join(*repo, m.File)
+			src, err := os.ReadFile(path)
+			if err != nil {
+				fmt.Fprintln(os.Stderr, err)
+				os.Exit(2)
+			}
+			idx := nthIndex(string(src), m.Old, m.N)
+			if idx < 0 {
+				fmt.Fprintln(os.Stderr, "mutant target absent")
+				os.Exit(2)
+			}
+			overlay = map[string][]byte{path: []byte(string(src)[:idx] + m.New + string(src)[idx+len(m.Old):] + m.Append)}
+		}
+	}
 	var ids []string
 	if *prop == "all" {
 		for id := range props {
